@@ -104,6 +104,16 @@ impl Run {
         }
     }
 
+    /// Records operation lists of states actually reached by an explorer in this run.
+    pub fn sample_paths(&self, label: &str, paths: &[Vec<Value>]) {
+        for p in paths.iter().take(2) {
+            let mut s = self.samples.lock().unwrap();
+            if s.len() < 8 {
+                s.push(json!({"reached_in": label, "ops": p}));
+            }
+        }
+    }
+
     pub fn assume(&self, s: &str) {
         self.assumptions.lock().unwrap().push(s.to_string());
     }
